@@ -81,6 +81,20 @@ def orcEngine (args : List String) : String :=
       let q := a.getD p
       if fromPriceOk q then s!"ok {showBool a.isSome} {q.min.value} {q.max.value} {q.min.mult}" else "err Arg"
     | _, _ => "bad-op"
+  | "e2e" :: ratio :: rest =>
+    -- one token of set_prices_from_remaining_accounts with adjustment enabled:
+    -- try_adjust_price → validate_one (fresh timestamps) → SmallPrices::from_price
+    match pNat ratio, (allNat rest).bind pPrice with
+    | some ratio, some (p, r) =>
+      if ratio = 0 ∨ ratio ≥ 2 ^ 32 then "bad-op" else
+      let f := ratio * 10 ^ 12
+      let a := adjust orcUnit f p r
+      let q := a.getD p
+      let v : Validator := { now := 1700000000, maxAge := 60, maxRange := 60, maxFuture := 10 }
+      (match validateOne orcUnit v { found := true, adjustment := 0, devFactor := some f } 1700000000 1 q r with
+       | .error e => showVErr e
+       | .ok _ => if fromPriceOk q then s!"ok {showBool a.isSome} {q.min.value} {q.max.value} {q.min.mult}" else "err Arg")
+    | _, _ => "bad-op"
   | ["fromprice", a, b, c, d] =>
     match allNat [a, b, c, d] with
     | some [a, b, c, d] => if fromPriceOk ⟨⟨a, b⟩, ⟨c, d⟩⟩ then s!"ok {a} {c} {b}" else "err Arg"
